@@ -90,6 +90,17 @@ class Evaluator(object):
             return self.coerce(SV(sv.t.get(cx, sv.e), sv.t.inner), t, what, st)
         if isinstance(t, TRef) and isinstance(sv.t, TRef):
             return SV(sv.e, t)
+        if isinstance(t, TSeq) and isinstance(sv.t, TSeq) and sv.meta and sv.meta.get("empty_literal"):
+            return SV(t.ops(cx)["empty"], t)
+        if isinstance(t, TSeq) and isinstance(sv.t, TSeq) and sv.meta and sv.meta.get("list_items"):
+            o = t.ops(cx)
+            e = o["empty"]
+            for it in sv.meta["list_items"]:
+                e = o["snoc"](e, self.coerce(it, t.elem, what, st).e)
+            return SV(e, t)
+        if isinstance(t, TTuple) and isinstance(sv.t, TTuple) and len(t.items) == len(sv.t.items):
+            items = (sv.meta or {}).get("tuple_items") or [SV(sv.t.proj(cx, sv.e, i), ti) for i, ti in enumerate(sv.t.items)]
+            return SV(t.mk(cx, [self.coerce(it, ti, what, st).e for it, ti in zip(items, t.items)]), t)
         if isinstance(t, TMap) and isinstance(sv.t, TMap) and sv.meta and sv.meta.get("empty_set"):
             return SV(z3.K(t.k.sort(cx), z3.BoolVal(False)), t)
         if isinstance(t, TMap) and isinstance(sv.t, TMap) and t.sort(cx) == sv.t.sort(cx):
@@ -207,7 +218,7 @@ class Evaluator(object):
         if any(isinstance(i.t, TNone) for i in items):
             raise Outside("None inside tuple literal needs a declared type")
         t = TTuple([i.t for i in items])
-        return SV(t.mk(self.cx, [i.e for i in items]), t)
+        return SV(t.mk(self.cx, [i.e for i in items]), t, {"tuple_items": items})
 
     def ev_List(self, node, st):
         if not node.elts:
@@ -219,7 +230,7 @@ class Evaluator(object):
         e = o["empty"]
         for it in items:
             e = o["snoc"](e, self.coerce(it, t.elem).e)
-        return SV(e, t)
+        return SV(e, t, {"list_items": items})
 
     def ev_Dict(self, node, st):
         if not node.keys:
